@@ -373,6 +373,11 @@ func (in *Interp) intrinsic(fn *ssa.Function, fi *fnInfo, args []Value, site ssa
 		return in.draw(st.seed, st), true
 	case "github.com/mitchellh/mapstructure.Decode":
 		return in.mapstructureDecode(args[0], args[1], site), true
+	case "(*sync.Map).Load", "(*sync.Map).Store", "(*sync.Map).LoadOrStore", "(*sync.Map).Delete", "(*sync.Map).LoadAndDelete":
+		return in.syncMapOp(name[len("(*sync.Map)."):], args, site), true
+	case "(*sync.Mutex).Lock", "(*sync.Mutex).Unlock", "(*sync.RWMutex).Lock", "(*sync.RWMutex).Unlock", "(*sync.RWMutex).RLock", "(*sync.RWMutex).RUnlock":
+		// one request at a time in the engine: locks are no-ops (interleavings are outside the encoding; see C10)
+		return nil, true
 	}
 	if strings.HasPrefix(name, "time.") || strings.HasPrefix(name, "os.") || (strings.HasPrefix(name, "math/rand.") && !strings.Contains(name, "New")) {
 		panic(Unsupported{"nondeterminism source " + name})
@@ -808,4 +813,61 @@ func (in *Interp) deepEqual(a, b Value, seen map[[2]interface{}]bool) Value {
 		}
 	}
 	return in.equal(a, b)
+}
+
+// syncMapOp models sync.Map as a plain map attached to the sync.Map object (one request at a time in the
+// engine). A Store/Delete on a map that outlives the current epoch is recorded as a write to shared state.
+func (in *Interp) syncMapOp(op string, args []Value, site ssa.Instruction) Value {
+	recv := args[0].(Pointer)
+	if recv.O == nil {
+		panic(GoPanic{Val: "nil pointer dereference (sync.Map)"})
+	}
+	key := fmt.Sprint(recv.O.ID, recv.Path)
+	if in.syncMaps == nil {
+		in.syncMaps = map[string]*MapV{}
+	}
+	m := in.syncMaps[key]
+	if m == nil {
+		m = &MapV{ID: -1, M: map[interface{}]Value{}, Epoch: recv.O.Epoch, Owner: recv.O.Owner}
+		in.syncMaps[key] = m
+	}
+	write := func() {
+		if in.trackWrites && (m.Epoch < in.epoch || m.Owner != 0) {
+			in.Writes = append(in.Writes, WriteEvent{Site: in.site(site), Label: "sync.Map", Owned: m.Owner != 0})
+		}
+	}
+	switch op {
+	case "Load":
+		v, ok := m.Get(args[1])
+		if !ok {
+			return Tuple{Iface{}, false}
+		}
+		return Tuple{v, true}
+	case "Store":
+		write()
+		m.Set(args[1], args[2])
+		return nil
+	case "LoadOrStore":
+		if v, ok := m.Get(args[1]); ok {
+			return Tuple{v, true}
+		}
+		write()
+		m.Set(args[1], args[2])
+		return Tuple{args[2], false}
+	case "Delete":
+		if _, ok := m.Get(args[1]); ok {
+			write()
+		}
+		m.Delete(args[1])
+		return nil
+	case "LoadAndDelete":
+		v, ok := m.Get(args[1])
+		if !ok {
+			return Tuple{Iface{}, false}
+		}
+		write()
+		m.Delete(args[1])
+		return Tuple{v, true}
+	}
+	panic(Unsupported{"sync.Map." + op})
 }
